@@ -1604,3 +1604,24 @@ PROPS['C10'] = dict(
     trusted_base=COMMON_TRUST,
     assumptions=['the edit callback yields values the public types admit (blockWf) for the read-back theorem'],
 )
+
+PROPS['C12'] = dict(
+    module='FlacModel.Props.C12',
+    theorems=['Flac.C12.duration_no_panic', 'Flac.C12.trackRanges_no_panic', 'Flac.C12.trackByteRanges_no_panic', 'Flac.C12.cueDisplay_no_panic',
+              'Flac.C12.sniff_no_panic', 'Flac.C12.plteColors_fuel', 'Flac.C12.jpegLoop_fuel', 'Flac.C12.parseMsf_ok', 'Flac.C12.pushIndex_np',
+              'Flac.C12.stepTok_np', 'Flac.C12.cueParse_no_panic'],
+    components=[BlocksRead(), Accessors(), CueText(), Pictures()],
+    rule='byte strings as metadata sections (well-formed sections of every block kind incl. sample rate 0 and cue sheets with offsets near 2^64, then bit flips, truncation, block-header surgery, oversized declared lengths, '
+         'random bytes) read with a counting allocator; every accessor (duration, decoded_len, channel_mask incl. the comment override, cue-sheet track ranges in samples and bytes, text export, catalog) on every list that parsed; '
+         'cue sheet texts (well-formed and 15 malformation classes: reordered/dropped lines, out-of-range numbers, minutes up to 2^64, index points running backwards, non-CD-DA texts with 255-258 index points, Unicode spaces, ...); '
+         'PNG/JPEG/GIF headers with extreme depths, palette scans, oversized chunk/segment lengths, truncation; both build profiles',
+    claim='For ALL inputs and both profiles the modelled arithmetic cannot trap: duration_no_panic (rate 0 gives None); trackRanges/trackByteRanges/cueDisplay_no_panic on ANY cue sheet value (saturating sums and products); '
+          'sniff_no_panic for ANY byte string (PNG depth products, JPEG precision x components in 32 bits; the palette and segment scans terminate: plteColors_fuel / jpegLoop_fuel show the result is independent of the fuel once it '
+          'exceeds the input length); cueParse_no_panic for ANY text and stream length: the MM:SS:FF conversion is checked (parseMsf_ok), the offset subtraction is guarded, and the 8-bit index-number successor cannot overflow '
+          '(pushIndex_np: invariant "last index number <= points so far" with the regenerated capacities 100/255).',
+    note='partial: the allocation bound is measured by the counting allocator on every generated input (peak <= 64 x input + 64 KiB), not proved - the model has no allocator. Infallible-by-type conversions in the reader '
+         '(u32 -> usize, 5-bit depth + 1 -> SignedBitCount<32>) are not modelled as panic sites. Hangs: the model functions are total (structural/fuel recursion with fuel-independence theorems); the implementation loops are '
+         'tied to them by correspondence.',
+    trusted_base=COMMON_TRUST,
+    assumptions=['u64 parsing, str::lines/trim/split_once as modelled (validated by the CueText correspondence on Unicode and malformed input)'],
+)
